@@ -74,6 +74,7 @@ func counterKey(cc *ssa.CallCommon) (string, bool, bool) {
 
 func runC10(c *Ctx) {
 	defer c10RetryAbort(c)
+	defer c10RetrySlotReleasedBeforeAdmission(c)
 	defer c10CloseSetCrossCheck(c)
 	c.Rule("C10.POOL", "the pools' own connection counts (compared with max_connections) are taken exactly once per created connection and given back whenever none is handed out", 2)
 	defer c09Count(c, "C10.POOL")
@@ -919,4 +920,58 @@ func mustRunOnCloseEvents(site ssa.Instruction) (bool, string) {
 		return false, "can be skipped for the close event(s) " + strings.Join(missing, ",")
 	}
 	return true, ""
+}
+
+// c10RetrySlotReleasedBeforeAdmission (PAIR, retries breaker): a request never counts itself against max_retries.
+// "matched by exactly one decrement when that ... retry ... ends" and "the configured limits trip at their thresholds":
+// when retryState.retry() is asked for another attempt, the retry that has just ended still holds its slot. Clause:
+// every query of the retries resource's CanCreate() reachable from retry() - directly or through shouldRetry - is
+// dominated by the reset() that gives that slot back (a call on the same state, not deferred). Otherwise the breaker
+// sees the request's own finished retry as a retry in progress and trips one below its threshold.
+func c10RetrySlotReleasedBeforeAdmission(c *Ctx) {
+	pkg := "pkg/proxy"
+	fn := c.M(pkg, "retryState", "retry")
+	if fn == nil {
+		c.Unresolved("C10.PAIR", "retryState.retry")
+		return
+	}
+	asksBreaker := func(f *ssa.Function) bool {
+		found := false
+		for g := range staticReach([]*ssa.Function{f}, pkg) {
+			forEachInstr(g, true, func(_ *ssa.Function, in ssa.Instruction) {
+				if ci, ok := in.(ssa.CallInstruction); ok && methodName(ci.Common()) == "CanCreate" {
+					found = true
+				}
+			})
+		}
+		return found
+	}
+	n := 0
+	forEachInstr(fn, false, func(_ *ssa.Function, in ssa.Instruction) {
+		ci, ok := in.(*ssa.Call)
+		if !ok {
+			return
+		}
+		query := methodName(ci.Common()) == "CanCreate"
+		if callee := ci.Common().StaticCallee(); callee != nil && len(callee.Blocks) > 0 && callee.Pkg == fn.Pkg && callee.Name() != "reset" && asksBreaker(callee) {
+			query = true
+		}
+		if !query {
+			return
+		}
+		n++
+		released := false
+		for _, cs := range callsIn(fn, false, func(cc *ssa.CallCommon) bool {
+			f := cc.StaticCallee()
+			return f != nil && f.Name() == "reset" && strings.Contains(f.String(), "retryState")
+		}) {
+			if _, isCall := cs.Instr.(*ssa.Call); isCall && instrDominates(cs.Instr, in) && len(cs.Instr.Common().Args) > 0 && cs.Instr.Common().Args[0] == ssa.Value(fn.Params[0]) {
+				released = true
+			}
+		}
+		c.Check("C10.PAIR", fmt.Sprintf("%s:slot-released-before-admission#%d", funcKey(fn), n), in.Pos(), released, "reset() dominates the breaker query", "retry() consults the retries breaker while the state may still hold the slot of the retry that just ended: the request counts itself against max_retries, so the breaker refuses a retry (RetryOverflow) below its threshold, and the slot of a finished retry is not released when that retry ends")
+	})
+	if n < 1 {
+		c.Unresolved("C10.PAIR", "the retries-breaker query (CanCreate) reachable from retryState.retry")
+	}
 }
